@@ -59,4 +59,9 @@ CLAIMED['C07'] = ('DESIGN.md 4/C07', 'calc_smooth_fa_spectrum / smoothing matrix
     'value is shown for ALL amplitudes to equal the independent Konno-Ohmachi weighted mean, to lie in [min,max], to '
     'reproduce constants, scale linearly and equal the matrix form; bandwidth helpers decided on an arbitrary symbolic '
     'smoothed spectrum (every above/below-threshold pattern a path).')
+CLAIMED['C15'] = ('DESIGN.md 4/C15', 'transform / transform_w_scipy_fft / itransform executed on a fully symbolic record (complex '
+    'scalars as pairs of reals through the DFT stub, SciPy toeplitz for real): every time-frequency cell is an exact '
+    'linear form compared with an independent S-transform oracle for ALL records (n<=9), plus row marginals, the '
+    'inverse, linearity, and the dominant-frequency trace for on-grid sinusoids with symbolic amplitude pair (each '
+    'argmax comparison a definite binary quadratic form, decided exactly), odd and even lengths.')
 NOT_APPLICABLE = {}
